@@ -293,6 +293,14 @@ func (s *Solver) CheckWith(st *Store, extra ...*Term) Result {
 		s.send(fmt.Sprintf("(assert %s)", Ref(e)))
 	}
 	r := s.Check()
+	if r == Unknown && s.LastErr == "" && !strings.Contains(s.Bin, "cvc5") {
+		// wall-clock timeouts are load dependent: retry once with a longer limit
+		s.send(fmt.Sprintf("(set-option :timeout %d)", s.Timeout*4))
+		s.Stats.Queries--
+		s.Stats.NUnknown--
+		r = s.Check()
+		s.send(fmt.Sprintf("(set-option :timeout %d)", s.Timeout))
+	}
 	s.Pop()
 	return r
 }
